@@ -112,6 +112,7 @@ def cases(group):
                     for f in _folds(n, group["tier"]):
                         yield dict(X=X, y=y, alphas=grid, alpha_type=atype, method=method, scoring=scoring, fold=f, n_jobs=None)
                     yield dict(X=X, y=y, alphas=grid, alpha_type=atype, method=method, scoring=scoring, fold=dict(kind="kfold", shuffle=False, seed=None), n_jobs=2)
+                    yield dict(X=X, y=y, alphas=grid, alpha_type=atype, method=method, scoring=scoring, fold=dict(kind="kfold", shuffle=True, seed=1), n_jobs=None, used=True)
 
 
 def _rank_ok(s):
@@ -180,6 +181,8 @@ def check(case):
     with warnings.catch_warnings():
         warnings.simplefilter("ignore")
         try:
+            if case.get("used"):  # a USED estimator: fitted before on other data of the same shape
+                model.fit(X[::-1, ::-1] * 0.5 + 0.25, y[::-1] * -1.5 + 0.5)
             model.fit(X.copy(), y.copy())
         except Exception as e:
             return r.fail("crash:%s" % type(e).__name__, repr(e))
